@@ -126,6 +126,11 @@ class _Parameter:
 
     def __set__(self, instance, value):
         self._checker(value)
+        if isinstance(value, np.ndarray):
+            # the parameter keeps its own values (writing into the caller's array afterwards is
+            # not an assignment), as floats when integers are given (moduli in Pa overflow int64
+            # once multiplied together)
+            value = value.astype(float) if value.dtype.kind in "iu" else value.copy()
         instance.__dict__[self.__name] = value
         if isinstance(instance, Updatable):
             instance.Need_Update()
